@@ -31,7 +31,7 @@ def file_cfg(rng, tier, prop):
            "dim_names": dims, "dim_kind": {d: rng.choice(kinds) for d in DIMS + ["s", "m"]},
            "max_rank": rng.randint(1, 3), "max_len": rng.randint(1, 4), "min_len": 1,
            "orders": sorted(rng.sample(V.ORDERS, rng.randint(1, 3))), "label_kinds": kinds,
-           "dtypes": ["f8", "f8", "i4", "i8"] if fmt.startswith("NETCDF3") else ["f8", "f8", "i4", "i8", "O"],
+           "dtypes": ["f8", "f8", "i4", "i8", "i2"] if fmt.startswith("NETCDF3") else ["f8", "f8", "i4", "i8", "O", "i2"],
            "nan_rate": rng.choice([0.0, 0.2]), "meta_density": rng.choice([0.0, 0.6, 1.0]), "mutable_meta": False,
            "n_steps": rng.randint(4, 16 if tier == "quick" else 30), "faults": faults,
            "fault_kind": rng.choice(["error", "error", "crash"]), "n_faults": rng.randint(1, 2),
@@ -78,10 +78,16 @@ def gen_dataset_spec(rng, cfg, dims_labels=None, nvars=None, names=None):
         elif dt != "O" and shape and 0 not in shape and rng.random() < 0.12:
             vals = _poke(vals, -99 if dt != "f8" else -99.0)   # ordinary data that happens to equal another variable's missing value
         vs.append({"name": nm, "dims": vd, "dtype": dt, "values": vals, "attrs": attrs})
+        if len(vd) >= 2 and rng.random() < 0.15:
+            vs[-1]["forder"] = True
         for d in vd:
             if d not in used:
                 used.append(d)
-    spec = {"dims": {d: dims[d] for d in used}, "axattrs": {d: gen_meta(rng, cfg["meta_density"] * 0.6) for d in used},
+    axmeta = {d: gen_meta(rng, cfg["meta_density"] * 0.6) for d in used}
+    for d in used:
+        if rng.random() < 0.04:
+            axmeta[d]["tol"] = rng.choice([0.75, "loose"])      # an attribute of the coordinate variable that happens to be called like a member of Axis
+    spec = {"dims": {d: dims[d] for d in used}, "axattrs": axmeta,
             "vars": vs, "attrs": gen_meta(rng, cfg["meta_density"])}
     spare = [d for d in dims if d not in used]
     if spare and not dims_labels and rng.random() < 0.15:
@@ -100,7 +106,7 @@ def _poke(vals, x):
 
 def var_array(vs, dims, axattrs=None):
     spec = {"dims": vs["dims"], "labels": [dims[d] for d in vs["dims"]], "dtype": vs["dtype"], "values": vs["values"],
-            "attrs": vs.get("attrs", {})}
+            "attrs": vs.get("attrs", {}), "forder": vs.get("forder", False)}
     if axattrs:
         spec["axattrs"] = [axattrs.get(d, {}) for d in vs["dims"]]
     return V.build_array(spec)
